@@ -18,6 +18,7 @@ from .. import anf
 from .common import default_instance_obligations, struct_ob, formula_ob, guard, last_return, U
 from .C03 import ownership_obligations
 from ..report import AnalysisError
+from ..term import Resolver, pmatch, find_all, abstract, anf_of
 
 ACQ = "inference/gp/acquisition.py"
 OPT = "inference/gp/optimisation.py"
@@ -154,19 +155,68 @@ def run(prog, tier):
                          f"`{U(calls[0]) if calls else None}`", OPT, lb.lineno))
     ac = prog.cls("AcquisitionFunction")
     sp = ac.methods.get("starting_positions")
-    txt = U(sp)
-    ok = ("lwr += widths * 0.01" in txt and "upr -= widths * 0.01" in txt and "widths = upr - lwr" in txt
-          and "samples = [minimum(upr, maximum(lwr, s)) for s in samples]" in txt
-          and "start = lwr + (upr - lwr) * random(size=L)" in txt
-          and "samples = sorted(samples, key=self.opt_func)" in txt and "starts.append(samples[0])" in txt)
-    obs.append(struct_ob("bounds-passed", qual(ac, sp), ok,
+    rs = Resolver(sp, prog, ac.module, ac)
+    bpar = sp.args.args[1].arg
+    why, box = [], {}
+    rets = rs.returns()
+    out_list = U(rets[0].value) if len(rets) == 1 else None
+    apps = [(n, rs.stmt_of(n)) for n in ast.walk(sp) if isinstance(n, ast.Call) and U(n.func) == f"{out_list}.append" and n.args]
+    if not apps:
+        why.append("no start point is collected")
+    for call, st_ in apps:
+        t = rs.term(call.args[0], st_)
+        b = None
+        for pt in ("sorted([minimum(_U, maximum(_L, _s)) for _s in _], key=self.opt_func)[0]",
+                   "min([minimum(_U, maximum(_L, _s)) for _s in _], key=self.opt_func)",
+                   "sorted([maximum(_L, minimum(_U, _s)) for _s in _], key=self.opt_func)[0]",
+                   "sorted([clip(_s, _L, _U) for _s in _], key=self.opt_func)[0]",
+                   "_L + (_U - _L) * random(size=_n)", "_L + (_U - _L) * random(_n)"):
+            b = pmatch(t, pt)
+            if b is not None:
+                break
+        if b is None:
+            why.append(f"start `{U(t)[:200]}` is neither clamped into the box nor drawn as lwr + (upr - lwr) u")
+            continue
+        box.setdefault((b["_L"], b["_U"]), 0)
+        box[(b["_L"], b["_U"])] += 1
+    if len(box) > 1:
+        why.append("the start points do not all use the same box")
+    for (lo, hi) in box:
+        if bpar not in lo or bpar not in hi:
+            why.append("the box is not derived from the bounds argument")
+        # inward shrink: lower edge moved up, upper edge moved down, by a non-negative multiple of the width
+        ab_lo, _ = abstract(ast.parse(lo, mode="eval").body, [(f"[array([_k[_i] for _k in {bpar}], dtype=float) for _i in [0, 1]][0]", "LO"),
+                                                               (f"[array([_k[_i] for _k in {bpar}], dtype=float) for _i in [0, 1]][1]", "HI")])
+        ab_hi, _ = abstract(ast.parse(hi, mode="eval").body, [(f"[array([_k[_i] for _k in {bpar}], dtype=float) for _i in [0, 1]][0]", "LO"),
+                                                               (f"[array([_k[_i] for _k in {bpar}], dtype=float) for _i in [0, 1]][1]", "HI")])
+        try:
+            LO, HI = R.sym("LO"), R.sym("HI")
+            c_lo = anf.proportional(anf_of(ab_lo) - LO, HI - LO)
+            c_hi = anf.proportional(HI - anf_of(ab_hi), HI - LO)
+            if c_lo is None or c_hi is None or not (0 <= c_lo < Fraction(1, 2)) or not (0 <= c_hi < Fraction(1, 2)):
+                why.append(f"the box edges `{lo[:80]}` / `{hi[:80]}` are not the bounds moved inwards by a fraction of the width")
+        except Unsupported:
+            why.append(f"the box edges `{lo[:80]}` / `{hi[:80]}` are outside the algebra")
+    obs.append(struct_ob("bounds-passed", qual(ac, sp), not why,
                          "start points must be clamped into / drawn from the (inward-shrunk) bounds box and the best local sample "
-                         "by the objective must be kept", ACQ, sp.lineno))
+                         "by the objective must be kept: " + "; ".join(why), ACQ, sp.lineno))
     c, ms = prog.method("GpOptimiser", "multistart_bfgs")
-    txt = U(ms)
-    ok = ("self.acquisition.starting_positions(self.bounds)" in txt and "sorted(results, key=lambda x: float(x[1]))[0]" in txt)
+    rm = Resolver(ms, prog, c.module, c)
+    starts = set()
+    for n in ast.walk(ms):
+        if isinstance(n, ast.ListComp) and pmatch(n, "[self.launch_bfgs(_x) for _x in _S]") is not None:
+            starts.add(U(rm.term(n.generators[0].iter, rm.stmt_of(n))))
+        if isinstance(n, ast.Call) and isinstance(n.func, ast.Attribute) and n.func.attr == "map" and len(n.args) == 2 \
+                and U(n.args[0]) == "self.launch_bfgs":
+            starts.add(U(rm.term(n.args[1], rm.stmt_of(n))))
+    rets = rm.return_terms()
+    okr = len(rets) == 1 and isinstance(rets[0], ast.Tuple) and len(rets[0].elts) == 2 and any(
+        pmatch(rets[0].elts[0], pt) is not None for pt in ("sorted(_r, key=lambda z: float(z[1]))[0][0]", "sorted(_r, key=lambda z: z[1])[0][0]",
+                                                           "min(_r, key=lambda z: float(z[1]))[0]", "min(_r, key=lambda z: z[1])[0]"))
+    ok = starts == {"self.acquisition.starting_positions(self.bounds)"} and okr
     obs.append(struct_ob("bounds-passed", qual(c, ms), ok,
-                         "multi-start must start from starting_positions(self.bounds) and keep the lowest objective", OPT, ms.lineno))
+                         f"multi-start must start from starting_positions(self.bounds) and keep the lowest objective: starts {sorted(starts)}; "
+                         f"returned `{U(rets[0])[:160] if rets else None}`", OPT, ms.lineno))
 
     # ---------------------------------------------------------------- ownership
     own = Ownership(prog)
@@ -203,26 +253,39 @@ def run(prog, tier):
             if pred(st):
                 return st.lineno
         return None
-    l_x = line_of(lambda s: isinstance(s, ast.Assign) and U(s) == "self.x = append(self.x, new_x, axis=0)")
-    l_y = line_of(lambda s: isinstance(s, ast.Assign) and U(s) == "self.y = append(self.y, new_y)")
-    gp_st = [s for s in body if isinstance(s, ast.Assign) and U(s.targets[0]) == "self.gp"]
-    l_up = line_of(lambda s: isinstance(s, ast.Expr) and U(s.value) == "self.acquisition.update_gp(self.gp)")
+    ra = Resolver(ae, prog, c.module, c)
+    nx, ny = ae.args.args[1].arg, ae.args.args[2].arg
+    l_x = line_of(lambda s_: isinstance(s_, ast.Assign) and U(s_.targets[0]) == "self.x"
+                  and pmatch(s_.value, "append(self.x, _n, axis=0)") is not None and nx in U(ra.term(s_.value, s_)))
+    l_y = line_of(lambda s_: isinstance(s_, ast.Assign) and U(s_.targets[0]) == "self.y"
+                  and pmatch(s_.value, "append(self.y, _n)") is not None and ny in U(ra.term(s_.value, s_)))
+    gp_st = [s_ for s_ in body if isinstance(s_, ast.Assign) and U(s_.targets[0]) == "self.gp"]
+    l_up = line_of(lambda s_: isinstance(s_, ast.Expr) and pmatch(s_.value, "self.acquisition.update_gp(self.gp)") is not None)
     ok, why = False, ""
     if l_x and l_y and len(gp_st) == 1 and l_up:
         call = gp_st[0].value
         kw = {k.arg: U(k.value) for k in call.keywords}
-        ok = (U(call.func) == "GpRegressor" and kw.get("x") == "self.x" and kw.get("y") == "self.y"
+        if isinstance(call, ast.Call) and U(call.func) == "GpRegressor":
+            for i_, nm_ in enumerate(("x", "y", "y_err")):
+                if i_ < len(call.args):
+                    kw.setdefault(nm_, U(call.args[i_]))
+        ok = (isinstance(call, ast.Call) and U(call.func) == "GpRegressor" and kw.get("x") == "self.x" and kw.get("y") == "self.y"
               and kw.get("y_err") == "self.y_err" and max(l_x, l_y) < gp_st[0].lineno < l_up)
         why = f"append lines {l_x},{l_y}; refit line {gp_st[0].lineno} with {kw}; update line {l_up}"
+    else:
+        why = f"append lines {l_x},{l_y}; refits {len(gp_st)}; update line {l_up}"
     obs.append(struct_ob("refit-order", qual(c, ae), ok,
                          "add_evaluation must append the new data, refit the regressor on the appended arrays, then update the "
                          "acquisition with the new regressor: " + why, OPT, ae.lineno))
     ug = ac.methods.get("update_gp")
-    body_txt = [U(s) for s in ug.body]
     g = ug.args.args[1].arg
-    obs.append(struct_ob("refit-order", qual(ac, ug), body_txt == [f"self.gp = {g}", f"self.mu_max = {g}.y.max()"],
-                         f"update_gp must install the regressor and set the incumbent to the maximum of its data: {body_txt}",
-                         ACQ, ug.lineno))
+    ru = Resolver(ug, prog, ac.module, ac, inline_self=True)
+    at_ = {U(s_.targets[0]): ru.term(s_.value, s_) for s_ in ug.body if isinstance(s_, ast.Assign) and len(s_.targets) == 1}
+    oku = (U(at_.get("self.gp")) == g if "self.gp" in at_ else False) and "self.mu_max" in at_ \
+        and pmatch(at_["self.mu_max"], f"{g}.y.max()") is not None
+    obs.append(struct_ob("refit-order", qual(ac, ug), oku,
+                         f"update_gp must install the regressor and set the incumbent to the maximum of its data: "
+                         f"{ {k: str(U(v)) for k, v in at_.items()} }", ACQ, ug.lineno))
 
     obs.extend(default_instance_obligations(prog, "components-not-shared", [('GpOptimiser', '__init__')]))
 
